@@ -41,6 +41,13 @@ struct RefRanlux {
     if (d < 0) { x[p] = d + (int64_t(1) << 48); c = 1; } else { x[p] = d; c = 0; }
     p = (p + 1) % 12;
   }
+  // position inside a stream given by a generator state (integers in units of 2^-48)
+  void set(const int64_t *k, int64_t carry, int ir, int ir_old) {
+    for (int i = 0; i < 12; ++i) x[i] = k[i];
+    c = carry;
+    p = ir_old;
+    delivered = (ir - ir_old + 12) % 12 + 1;
+  }
   double next() {
     if (delivered == 12) {
       for (int k = 0; k < 397; ++k) step();
@@ -139,6 +146,30 @@ int main() {
       unlink(name);
       std::cout << "restore " << show_state(*g) << "\n";
       if (!same_state(*g, *shadow)) bad << " restored-state-differs";
+    } else if (w.size() == 18 && w[0] == "state") {
+      // a generator in a chosen state, constructed the only public way: from a restart file
+      int64_t k[12];
+      for (int i = 0; i < 12; ++i) k[i] = std::strtoll(w[1 + i].c_str(), nullptr, 10);
+      const int64_t kc = std::strtoll(w[13].c_str(), nullptr, 10);
+      char name[] = "/tmp/verif_c13_XXXXXX";
+      int fd = mkstemp(name);
+      close(fd);
+      {
+        RestartWriter rw(name);
+        for (int i = 0; i < 12; ++i) rw.write(std::ldexp((double)k[i], -48));
+        rw.write(std::ldexp((double)kc, -48));
+        for (int i = 14; i < 18; ++i) rw.write((uint_fast32_t)u64(w[i]));
+      }
+      delete g;
+      delete shadow;
+      shadow = nullptr;
+      {
+        RestartReader rr(name);
+        g = new RandomGenerator(rr);
+      }
+      unlink(name);
+      ref.set(k, kc, (int)u64(w[14]), (int)u64(w[16]));
+      std::cout << "state " << show_state(*g) << "\n";
     } else if (w.size() == 3 && w[0] == "differ") {
       // two different seeds (after the 0 -> 1 and 31 bit reduction) must give different streams
       const long long a = std::strtoll(w[1].c_str(), nullptr, 10);
